@@ -242,7 +242,7 @@ func TestVerifC13_goldilocks(t *testing.T) {
 			r.Distinct("base", s.Name)
 		}
 	})
-	r.Sample(map[string]string{"op": "ScalarMult", "k": "n-1", "P": logs[len(logs)-1].Name})
+	r.Sample(map[string]string{"op": "ScalarMult", "k": "n-1", "k_le": verifmc.FullHex(fpx.ToLE(new(big.Int).Sub(N, big.NewInt(1)), ScalarSize)), "P": logs[len(logs)-1].Name, "P_rfc8032": verifmc.FullHex(ref.MarshalRFC8032(refPts[len(logs)-1]))})
 
 	// ---- CombinedMult(m, n, Q) = mG + nQ
 	ms := curvealpha.Core(sc)
